@@ -644,3 +644,210 @@ PLANS["C18"] = dict(suites=[Suite("bevy", 300, 15000, crate="bevy")], floors={"q
 PLANS["C19"] = dict(suites=[Suite("bevy", 300, 15000, crate="bevy")], floors={"quick": dict(BEVY_FLOORS["quick"], **{"key-changes-by-chain": 20, "two-animator-apps": 30})}, extra=extra_bevy,
                     recognisers={"c19_other_animator": rec_c19_other_animator},
                     assumptions=["as C18; both relative orders of chain_animations/select_animation and of animate<Q>/chain_animations are modelled"])
+
+
+# ---------------------------------------------------------------------------------------------------
+# macros (C15, C16, C17): the documented reading, re-implemented independently here, against the
+# implementation's normalised expansion record
+
+import re as _re
+
+
+def lex_lit(text):
+    """(neg, mantissa, exp10, suffix, kind) of a Rust numeric literal's text, or None"""
+    m = _re.fullmatch(r"(\d[\d_]*)(?:\.(\d[\d_]*)?)?(?:[eE]([+-]?\d[\d_]*))?([A-Za-z_][A-Za-z0-9_]*)?", text)
+    if not m: return None
+    ip = m.group(1).replace("_", "")
+    has_dot = "." in text[: len(text) - len(m.group(4) or "")]
+    fp = (m.group(2) or "").replace("_", "")
+    ex = int((m.group(3) or "0").replace("_", ""))
+    kind = "float" if (has_dot or m.group(3) is not None) else "int"
+    return dict(mant=int(ip + fp), exp10=ex - len(fp), suffix=m.group(4) or "", kind=kind, neg=False)
+
+
+def lit_f32(l):
+    q = Fraction(l["mant"]) * (Fraction(10) ** l["exp10"])
+    v = f32_round(q)
+    return -v if l["neg"] else v
+
+
+def f32_mul(a, b):
+    import math
+    r = f32_round(Fraction(a) * Fraction(b))
+    if r == 0.0:   # the sign of a zero product is the xor of the signs
+        return -0.0 if (math.copysign(1.0, a) * math.copysign(1.0, b)) < 0 else 0.0
+    return r
+
+
+def py_tokens(ws):
+    toks, i = [], 0
+    while i < len(ws):
+        t = ws[i]
+        if t == "O:-" and i + 1 < len(ws) and ws[i + 1].startswith("L:"):
+            l = lex_lit(ws[i + 1][2:])
+            if l is not None:
+                l["neg"] = True
+                toks.append(("lit", l)); i += 2; continue
+        if t.startswith("L:"):
+            toks.append(("lit", lex_lit(t[2:])))
+        elif t.startswith("P:"): toks.append(("path", t[2:]))
+        elif t.startswith("B:"): toks.append(("braces", [f for f in t[2:].split(";") if f]))
+        elif t.startswith("O:"): toks.append(("other", t))
+        else: toks.append((t, None))
+        i += 1
+    return toks
+
+
+class Reject(Exception):
+    pass
+
+
+def py_kfvals(toks, i):
+    if i < len(toks) and toks[i][0] == "default": return "D", i + 1
+    if i < len(toks) and toks[i][0] == "braces": return "&".join(toks[i][1]), i + 1
+    raise Reject()
+
+
+def py_config(toks, i):
+    """documented reading of one configuration starting at token i; returns (record string, next index)"""
+    c = dict(dur=None, delay=None, ease=None, rep=None, rev=False, kfs=[])
+    def secs(l):
+        if l is None or l["kind"] not in ("int", "float"): raise Reject()
+        return l
+    while i < len(toks) and toks[i][0] != ",":
+        k, v = toks[i]
+        if k in ("for", "after"):
+            if i + 1 >= len(toks) or toks[i + 1][0] != "lit" or toks[i + 1][1] is None: raise Reject()
+            c["dur" if k == "for" else "delay"] = toks[i + 1][1]; i += 2
+        elif k == "reverse": c["rev"] = True; i += 1
+        elif k == "infinite": c["rep"] = "i"; i += 1
+        elif k in ("from", "to"):
+            vals, i = py_kfvals(toks, i + 1)
+            c["kfs"].append((0.0 if k == "from" else 1.0, vals))
+        elif k == "lit":
+            if v is None:
+                # a non-numeric literal has an empty suffix: accepted only as `<lit> %`, which then fails as non-numeric
+                raise Reject()
+            if v["suffix"] in ("s", "ms"): c["dur"] = v; i += 1
+            elif v["suffix"] == "x":
+                if v["kind"] != "int": raise Reject()
+                c["rep"] = v; i += 1
+            elif v["suffix"] == "":
+                if i + 1 < len(toks) and toks[i + 1][0] == "%":
+                    vals, i = py_kfvals(toks, i + 2)
+                    c["kfs"].append((f32_mul(lit_f32(v), f32_round(Fraction(1, 100))), vals))
+                else: raise Reject()
+            else: raise Reject()
+        elif k == "path": c["ease"] = v; i += 1
+        elif k == "default": c["ease"] = "default"; i += 1
+        else: raise Reject()
+    def seconds(l):
+        if l is None: return "-"
+        unit = {"s": f32_round(1), "ms": f32_round(Fraction(1, 1000))}.get(l["suffix"])
+        if unit is None: raise Reject()
+        return str(bits_of(f32_mul(lit_f32(l), unit)))
+    dur, delay = seconds(c["dur"]), seconds(c["delay"])
+    if c["rep"] is None: rep = "-"
+    elif c["rep"] == "i": rep = "i"
+    else:
+        l = c["rep"]
+        if l["exp10"] != 0 or l["neg"] or l["mant"] > 4294967295: raise Reject()
+        rep = str(l["mant"])
+    kfs = ",".join(f"{bits_of(p)}:{v}" for p, v in c["kfs"])
+    return f"tl[dur={dur};delay={delay};ease={c['ease'] or '-'};rep={rep};rev={1 if c['rev'] else 0};kf={kfs}]", i
+
+
+def py_sentence(ws):
+    try:
+        if ws and ws[0] == "[" and ws[-1] == "]":
+            toks = py_tokens(ws[1:-1])
+            recs, i = [], 0
+            while True:
+                r, i = py_config(toks, i)
+                recs.append(r)
+                if i >= len(toks): break
+                i += 1  # the comma
+            return recs[0] if len(recs) == 1 else "merged[" + "|".join(recs) + "]"
+        toks = py_tokens(ws)
+        r, i = py_config(toks, 0)
+        if i < len(toks): raise Reject()
+        return r
+    except Reject:
+        return "reject"
+
+
+def py_animator(ws):
+    d = ws[0]
+    if d == "D:none": state, defaults = "-", "none"
+    else:
+        body = d[2:]
+        if ":E:" in body: state, e = body.split(":E:", 1); defaults = "expr:" + e
+        elif ":I:" in body: state, fs = body.split(":I:", 1); defaults = "inline:" + "&".join(f for f in fs.split(";") if f)
+        else: state, defaults = body, "none"
+    ons, i = [], 1
+    while i < len(ws):
+        j = i + 1
+        while j < len(ws) and ws[j] != "ARM": j += 1
+        states, body = ws[i + 1].split("|"), ws[i + 3: j]
+        rec = py_sentence(body)
+        if rec == "reject": return "reject"
+        ons += [f"{s}:{rec}" for s in states]
+        i = j
+    return f"anim[state={state};defaults={defaults};on={','.join(ons)}]"
+
+
+def py_derive(w):
+    vis = {"pub": "pub", "crate": "pub(crate)"}.get(w[0], "")
+    if w[1] != "named": return "reject"
+    name, remote = w[2], None
+    if w[3] != "none":
+        for a in w[3].split(","):
+            n, v = a.split("=", 1)
+            k, text = v.split(":", 1)
+            if n != "remote" or k != "S": return "reject"
+            remote = text
+    fields = []
+    for f in w[4:]:
+        n, rest = f.split(":", 1)
+        ty, a = rest.rsplit(":", 1)
+        fields.append((n, ty.replace("~", "::"), a == "a"))
+    anim = [f for f in fields if f[2]] or fields
+    rn = remote.split("::")[-1] if remote else name
+    names = ",".join(f[0] for f in anim)
+    return (f"derive[target={name};remote={rn};vfromty={remote or name};tl={rn}Timeline;data={rn}KeyframeData;builder={rn}KeyframeBuilder;"
+            f"vis={vis};anim={','.join(f'{n}:{t}' for n, t, _ in anim)};setters={names};kfrom={names};vfrom={names};upd={names};start={names};fake={0 if rn == name else 1}]")
+
+
+def extra_macro(prop, tier, seed, profiles):
+    suite = {"C15": "mtl", "C16": "manim", "C17": "mderive"}[prop]
+    n = 3000 if tier == "quick" else 150000
+    path = os.path.join(P.WORK, prop, f"oracle.{tier}.ops")
+    os.makedirs(os.path.dirname(path), exist_ok=True)
+    mbin = P.harness_bin("debug", P.MACRO, "macro_harness")
+    P.gen_ops(suite, seed + 1500, n, path, gen_bin=mbin)
+    out = path[:-4] + ".impl"
+    P.run_stream(mbin, ["run"], path, out)
+    ops, impl = P.read_lines(path), P.read_lines(out)
+    fails, checked = [], 0
+    hist = {"accepted": 0, "rejected": 0, "merged": 0}
+    for L, (op, o) in enumerate(zip(ops, impl)):
+        w = [x for x in op.split(" ") if x]
+        if not w or w[0] != suite: continue
+        want = {"mtl": py_sentence, "manim": py_animator, "mderive": py_derive}[suite](w[1:])
+        checked += 1
+        if o == "reject": hist["rejected"] += 1
+        else: hist["accepted"] += 1
+        if "merged[" in o: hist["merged"] += 1
+        if o != want:
+            fails.append(dict(line=L, directive=f"spec documented reading of the {suite} input", op=op, got=o, want=want, ops=[op]))
+    return dict(checked=checked, fails=fails, evaluations=checked, hist=hist)
+
+
+MACRO_FLOORS = {"quick": {"accepted": 1000, "rejected": 200}}
+PLANS["C15"] = dict(suites=[Suite("mtl", 4000, 200000, crate="macro")], floors={"quick": dict(MACRO_FLOORS["quick"], **{"merged": 100})}, extra=extra_macro,
+                    assumptions=["the model starts at token level; syn's tokenisation and literal parsing are exercised by the correspondence (real source text, real parser), not modelled; hex/octal/binary literal forms are outside the generated grammar",
+                                 "quote! emission and rustc's compilation of the emitted code are exercised by the compiled program families (thorough tier), not modelled"])
+PLANS["C16"] = dict(suites=[Suite("manim", 3000, 150000, crate="macro")], floors=MACRO_FLOORS, extra=extra_macro,
+                    assumptions=["the outer block structure (default clause, arms) is taken as parsed; arm bodies go through the timeline! token model"])
+PLANS["C17"] = dict(suites=[Suite("mderive", 3000, 150000, crate="macro"), Suite("tl", 200, 10000)], floors=MACRO_FLOORS, extra=extra_macro,
+                    assumptions=["behaviour of the derived API is exercised on the three derive shapes compiled into the core harness (all fields, #[animate] subset, remote proxy) and, in the thorough tier, on generated program families"])
